@@ -796,6 +796,7 @@ func c17RunSpec(c *Ctx, s *c17Spec, steps int, maxReq int) {
 	// requests are fixed for the whole run: values of the base policy and links, the spec's
 	// own values, and a value that occurs nowhere
 	r.reqs = s.requests(c.Rng, s.p, s.g, maxReq)
+	s.preAsk = r.reqs
 	r.rebuild(s.p, s.g)
 	c17Correspond(c, s, pb, r.e, r.reqs, "base")
 	for _, d := range r.D {
